@@ -761,7 +761,7 @@ func deriveSchemas(base *sDoc, types *sTypes, k int, seed int64) []schemaCase {
 		return &d, &t
 	}
 	var out []schemaCase
-	kinds := []string{"remove-optional-field", "swap-members", "rename-field", "add-field", "toggle-required", "retype-field", "remove-message", "add-group-member"}
+	kinds := []string{"remove-optional-field", "swap-members", "rename-field", "add-field", "toggle-required", "retype-field", "remove-message", "add-group-member", "reorder-header-trailer"}
 	for i := 0; i < k; i++ {
 		d, t := clone()
 		kind := kinds[i%len(kinds)]
@@ -838,6 +838,24 @@ func deriveSchemas(base *sDoc, types *sTypes, k int, seed int64) []schemaCase {
 					break
 				}
 			}
+		case "reorder-header-trailer":
+			// a framing field (excluded from the generated component) in the middle of the header /
+			// trailer, and two ordinary header members swapped
+			mv := func(ms []*sMember, name string, to int) []*sMember {
+				for j, x := range ms {
+					if x.Name == name {
+						ms = append(ms[:j:j], ms[j+1:]...)
+						if to > len(ms) {
+							to = len(ms)
+						}
+						return append(ms[:to:to], append([]*sMember{x}, ms[to:]...)...)
+					}
+				}
+				return ms
+			}
+			d.Header.Members = mv(d.Header.Members, "MsgType", 4+rng.Intn(3))
+			d.Trailer.Members = mv(d.Trailer.Members, "CheckSum", 1)
+			desc += " MsgType and CheckSum moved inside header/trailer"
 		case "add-group-member":
 			var grp *sMember
 			var find func(ms []*sMember)
@@ -1093,9 +1111,9 @@ func c12Check(tier string, ev *Evidence) ([]string, error) {
 			cases = append(cases, schemaCase{name: "big12", doc: &small, types: bigTypes, description: "first 12 messages of generator/testdata/fix.4.4.xml"})
 		}
 	}
-	k := 6
+	k := 9
 	if tier != "quick" {
-		k = 24
+		k = 27
 	}
 	cases = append(cases, deriveSchemas(srcDoc, srcTypes, k, seed)...)
 	for _, sc := range cases {
